@@ -1,4 +1,225 @@
-/- C15 — model and specification (stub; see HACKING.md) -/
+/-
+  C15 — angles, torsion angles, named distances and the neighbour search match textbook geometry.
+
+  Model of (generic in the number type `K`; the driver runs `K = Float`, the theorems `K = ℝ` / any field):
+    Array.__sub__/dot/cross/norm/normalized/angle   (misc/dsrmath.py)  -> `V3.sub/dot/cross/normSq`, `vecAngle`
+    Atoms.angle                                     (atoms/atoms.py)   -> `angleCos`, `angleModel`
+    Atoms.torsion_angle                             (atoms/atoms.py)   -> `directionCode`, `torsionCos`, `torsionModel`
+    OrthogonalMatrix.m * Array (Atom.parse_line)    (misc/dsrmath.py)  -> `cart`
+    Atoms.distance -> atomic_distance(no cell)      (atoms/atoms.py)   -> `namedDistance`
+    atomic_distance(cell)                           (misc/dsrmath.py)  -> `metricRadicand`, `metricDist`
+    Atom.find_atoms_around                          (atoms/atom.py)    -> `findAround`
+  `sqrt`, `acos`, `degrees`, `round(., 9)`, `atan2` are parameters (`Trans K`); the trigonometric values of
+  the cell angles are fields of `Cell K` with their relations as hypotheses of the theorems.
+
+  Specification (code independent): `triple`, `specTorsion` (atan2 of the two textbook quantities),
+  `specAngle`, `metricForm`/`specDistance` (metric tensor), `specAround` (filter over the atom list).
+-/
 namespace Shelx.C15
+
+structure V3 (K : Type) where
+  x : K
+  y : K
+  z : K
+deriving Repr, BEq
+
+/-- the functions Python takes from `math` (and the built-in `round(., 9)`) -/
+structure Trans (K : Type) where
+  sqrt : K → K
+  acos : K → K
+  /-- `math.degrees` -/
+  deg : K → K
+  /-- `round(x, 9)` -/
+  round9 : K → K
+  /-- only used by the specification -/
+  atan2 : K → K → K
+
+section kernel
+variable {K : Type} [Add K] [Sub K] [Mul K] [Div K] [Neg K] [OfNat K 0] [OfNat K 1] [OfNat K 2]
+
+/-! ### Model: `Array` -/
+
+/-- `Array.__sub__` -/
+def V3.sub (a b : V3 K) : V3 K := ⟨a.x - b.x, a.y - b.y, a.z - b.z⟩
+
+/-- `Array.dot`: `sum([i * j for i, j in zip(self, other)])` (Python's `sum` starts from 0) -/
+def V3.dot (a b : V3 K) : K := 0 + a.x * b.x + a.y * b.y + a.z * b.z
+
+/-- `Array.cross` -/
+def V3.cross (a b : V3 K) : V3 K :=
+  ⟨a.y * b.z - a.z * b.y, a.z * b.x - a.x * b.z, a.x * b.y - a.y * b.x⟩
+
+/-- `Array.norm` (the *squared* length): `sum([n ** 2 for n in self.values])` -/
+def V3.normSq (a : V3 K) : K := 0 + a.x * a.x + a.y * a.y + a.z * a.z
+
+/-- argument of `acos` in `Array.angle` -/
+def vecCos (T : Trans K) (v w : V3 K) : K := v.dot w / (T.sqrt v.normSq * T.sqrt w.normSq)
+
+/-- `Array.angle`: `round(degrees(acos(self.dot(other) / (self.normalized() * other.normalized()))), 9)` -/
+def vecAngle (T : Trans K) (v w : V3 K) : K := T.round9 (T.deg (T.acos (vecCos T v w)))
+
+/-! ### Model: `Atoms.angle` -/
+
+/-- `vec1 = ac2 - ac1; vec2 = ac2 - ac3`, argument of `acos` -/
+def angleCos (T : Trans K) (p1 p2 p3 : V3 K) : K := vecCos T (p2.sub p1) (p2.sub p3)
+
+def angleModel (T : Trans K) (p1 p2 p3 : V3 K) : K := vecAngle T (p2.sub p1) (p2.sub p3)
+
+/-! ### Model: `Atoms.torsion_angle` -/
+
+/-- the hand-expanded sign expression of `torsion_angle`, term by term, *as repaired by
+    fixes/C15_1_torsion_sign.patch*:
+    `v1[0]*v2[1]*v3[2] - v1[2]*v2[1]*v3[0] + v1[2]*v2[0]*v3[1] - v1[0]*v2[2]*v3[1] + v1[1]*v2[2]*v3[0] - v1[1]*v2[0]*v3[2]` -/
+def directionCode (v1 v2 v3 : V3 K) : K :=
+  v1.x * v2.y * v3.z - v1.z * v2.y * v3.x + v1.z * v2.x * v3.y - v1.x * v2.z * v3.y
+    + v1.y * v2.z * v3.x - v1.y * v2.x * v3.z
+
+/-- the expression as it stood before the repair: second term `v1[2] * v1[1] * v3[0]` -/
+def directionTypo (v1 v2 v3 : V3 K) : K :=
+  v1.x * v2.y * v3.z - v1.z * v1.y * v3.x + v1.z * v2.x * v3.y - v1.x * v2.z * v3.y
+    + v1.y * v2.z * v3.x - v1.y * v2.x * v3.z
+
+/-- `direction` of the four atoms: bond vectors `v1 = ac2 - ac1, v2 = ac3 - ac2, v3 = ac4 - ac3` -/
+def direction (p1 p2 p3 p4 : V3 K) : K := directionCode (p2.sub p1) (p3.sub p2) (p4.sub p3)
+
+/-- numerator of the `acos` argument: `a[0]*b[0] + a[1]*b[1] + a[2]*b[2]` with `a = v1 x v2`, `b = v2 x v3` -/
+def torsionNum (p1 p2 p3 p4 : V3 K) : K :=
+  let a := (p2.sub p1).cross (p3.sub p2)
+  let b := (p3.sub p2).cross (p4.sub p3)
+  a.x * b.x + a.y * b.y + a.z * b.z
+
+/-- `a[0]*a[0] + a[1]*a[1] + a[2]*a[2]` -/
+def sq3 (a : V3 K) : K := a.x * a.x + a.y * a.y + a.z * a.z
+
+/-- the argument of `acos` in `torsion_angle` -/
+def torsionCos (T : Trans K) (p1 p2 p3 p4 : V3 K) : K :=
+  let a := (p2.sub p1).cross (p3.sub p2)
+  let b := (p3.sub p2).cross (p4.sub p3)
+  torsionNum p1 p2 p3 p4 / (T.sqrt (sq3 a) * T.sqrt (sq3 b))
+
+/-- `max(-1.0, min(1.0, cosine))` (fixes/C15_3_torsion_planar_domain.patch) with Python's `min`/`max`:
+    `min(1.0, x)` is `x` iff `x < 1.0`, `max(-1.0, y)` is `y` iff `y > -1.0` -/
+def clampUnit [LT K] [∀ a b : K, Decidable (a < b)] (x : K) : K :=
+  let y := if x < 1 then x else 1
+  if -1 < y then y else -1
+
+/-- `ang = acos(max(-1.0, min(1.0, cosine)))`; `return degrees(ang) if direction > 0 else degrees(-ang)` -/
+def torsionModel [LT K] [∀ a b : K, Decidable (a < b)] (T : Trans K) (p1 p2 p3 p4 : V3 K) : K :=
+  let ang := T.acos (clampUnit (torsionCos T p1 p2 p3 p4))
+  if 0 < direction p1 p2 p3 p4 then T.deg ang else T.deg (-ang)
+
+/-! ### Model: Cartesian coordinates, named distance, metric distance, neighbour search -/
+
+/-- the cell as the code uses it: lengths, the cosines of the three angles, `sin γ`, and the volume `V`
+    (`OrthogonalMatrix.__init__`, `atomic_distance`) -/
+structure Cell (K : Type) where
+  a : K
+  b : K
+  c : K
+  ca : K
+  cb : K
+  cg : K
+  sg : K
+  v : K
+
+/-- `OrthogonalMatrix.m * Array(frac_coords)`; the matrix rows are
+    `(a, b cos γ, c cos β)`, `(0, b sin γ, c (cos α − cos β cos γ) / sin γ)`, `(0, 0, V / (a b sin γ))`
+    and `Matrix * Array` is `sum([b * x for (b, x) in zip(frac, row)])` per row -/
+def cart (C : Cell K) (f : V3 K) : V3 K :=
+  ⟨0 + f.x * C.a + f.y * (C.b * C.cg) + f.z * (C.c * C.cb),
+   0 + f.x * 0 + f.y * (C.b * C.sg) + f.z * (C.c * (C.ca - C.cb * C.cg) / C.sg),
+   0 + f.x * 0 + f.y * 0 + f.z * (C.v / (C.a * C.b * C.sg))⟩
+
+/-- `atomic_distance(p1, p2)` without a cell: `sqrt(dx ** 2 + dy ** 2 + dz ** 2)` -/
+def euclid (T : Trans K) (p q : V3 K) : K :=
+  let d := p.sub q
+  T.sqrt (d.x * d.x + d.y * d.y + d.z * d.z)
+
+/-- `Atoms.distance`: `atomic_distance` of the two atoms' stored Cartesian coordinates -/
+def namedDistance (T : Trans K) (C : Cell K) (f1 f2 : V3 K) : K := euclid T (cart C f1) (cart C f2)
+
+/-- the radicand of `atomic_distance(p1, p2, cell)`:
+    `(a dx)**2 + (b dy)**2 + (c dz)**2 + 2 b c cos(al) dy dz + 2 dx dz a c cos(be) + 2 dx dy a b cos(ga)` -/
+def metricRadicand (C : Cell K) (f1 f2 : V3 K) : K :=
+  let d := f1.sub f2
+  (C.a * d.x) * (C.a * d.x) + (C.b * d.y) * (C.b * d.y) + (C.c * d.z) * (C.c * d.z)
+    + 2 * C.b * C.c * C.ca * d.y * d.z + 2 * d.x * d.z * C.a * C.c * C.cb + 2 * d.x * d.y * C.a * C.b * C.cg
+
+def metricDist (T : Trans K) (C : Cell K) (f1 f2 : V3 K) : K := T.sqrt (metricRadicand C f1 f2)
+
+/-- what `find_atoms_around` reads of an atom -/
+structure AtomN (K : Type) where
+  frac : V3 K
+  part : Int
+  qpeak : Bool
+
+/-- the loop of `find_atoms_around(dist, only_part)` of the atom at position `i`, as repaired by
+    fixes/C15_2_neighbour_self_identity.patch (`at is not self`); returns positions in `shx.atoms` -/
+def findAroundLoop [LT K] [∀ a b : K, Decidable (a < b)] (T : Trans K) (C : Cell K) (self : AtomN K) (i : Nat)
+    (dist : K) (onlyPart : Int) : List (AtomN K) → Nat → List Nat
+  | [], _ => []
+  | at_ :: rest, j =>
+    if metricDist T C self.frac at_.frac < dist ∧ i ≠ j ∧ at_.part = onlyPart ∧ at_.qpeak = false
+    then j :: findAroundLoop T C self i dist onlyPart rest (j + 1)
+    else findAroundLoop T C self i dist onlyPart rest (j + 1)
+
+/-- `none` is the IndexError of asking for an atom that is not there (never reached by the harness) -/
+def findAround [LT K] [∀ a b : K, Decidable (a < b)] (T : Trans K) (C : Cell K) (atoms : List (AtomN K)) (i : Nat)
+    (dist : K) (onlyPart : Int) : Option (List Nat) :=
+  match atoms[i]? with
+  | none => none
+  | some self => some (findAroundLoop T C self i dist onlyPart atoms 0)
+
+/-! ### Specification -/
+
+/-- scalar triple product `v1 · (v2 × v3)` -/
+def triple (v1 v2 v3 : V3 K) : K :=
+  v1.x * (v2.y * v3.z - v2.z * v3.y) + v1.y * (v2.z * v3.x - v2.x * v3.z) + v1.z * (v2.x * v3.y - v2.y * v3.x)
+
+def sdot (a b : V3 K) : K := a.x * b.x + a.y * b.y + a.z * b.z
+
+/-- Textbook (IUPAC / Giacovazzo) torsion angle of A–B–C–D with bond vectors `b1 = B − A, b2 = C − B, b3 = D − C`:
+    the angle `φ ∈ (−π, π]` with `cos φ ∝ (b1×b2)·(b2×b3)` and `sin φ ∝ |b2| · b1·(b2×b3)`; it is positive iff the
+    triple product is, i.e. iff the rotation that carries the projection of B→A onto that of C→D, seen looking
+    from B towards C, is clockwise (see `torsion_canonical` in ShelxProps/C15.lean). -/
+def specTorsionY (T : Trans K) (p1 p2 p3 p4 : V3 K) : K :=
+  let b2 := p3.sub p2
+  T.sqrt (sdot b2 b2) * triple (p2.sub p1) b2 (p4.sub p3)
+
+def specTorsionX (p1 p2 p3 p4 : V3 K) : K :=
+  sdot ((p2.sub p1).cross (p3.sub p2)) ((p3.sub p2).cross (p4.sub p3))
+
+def specTorsion (T : Trans K) (p1 p2 p3 p4 : V3 K) : K :=
+  T.deg (T.atan2 (specTorsionY T p1 p2 p3 p4) (specTorsionX p1 p2 p3 p4))
+
+/-- angle at `p2` between the directions to `p1` and `p3`: `atan2(|u × w|, u · w)` -/
+def specAngle (T : Trans K) (p1 p2 p3 : V3 K) : K :=
+  let u := p1.sub p2
+  let w := p3.sub p2
+  let n := u.cross w
+  T.deg (T.atan2 (T.sqrt (sdot n n)) (sdot u w))
+
+/-- metric tensor form `dᵀ G d`, `G = [[a², ab cos γ, ac cos β], [., b², bc cos α], [., ., c²]]` -/
+def metricForm (C : Cell K) (d : V3 K) : K :=
+  C.a * C.a * (d.x * d.x) + C.b * C.b * (d.y * d.y) + C.c * C.c * (d.z * d.z)
+    + 2 * (C.a * C.b * C.cg) * (d.x * d.y) + 2 * (C.a * C.c * C.cb) * (d.x * d.z) + 2 * (C.b * C.c * C.ca) * (d.y * d.z)
+
+/-- distance of two sites of a crystal: `sqrt(Δᵀ G Δ)` -/
+def specDistance (T : Trans K) (C : Cell K) (f1 f2 : V3 K) : K := T.sqrt (metricForm C (f1.sub f2))
+
+end kernel
+
+/-- positions `j` of `l` (counted from `k`) whose element satisfies `p j a` -/
+def filterIdx {α : Type} (p : Nat → α → Bool) : List α → Nat → List Nat
+  | [], _ => []
+  | a :: rest, k => if p k a then k :: filterIdx p rest (k + 1) else filterIdx p rest (k + 1)
+
+/-- the neighbours of atom `i`: every *other* atom (by position) that is no Q-peak, belongs to the requested
+    PART and lies closer than `dist` (textbook distance) -/
+def specAround {K : Type} [Add K] [Sub K] [Mul K] [OfNat K 2] [LT K] [∀ a b : K, Decidable (a < b)]
+    (T : Trans K) (C : Cell K) (atoms : List (AtomN K)) (i : Nat) (dist : K) (part : Int) : Option (List Nat) :=
+  (atoms[i]?).map fun self =>
+    filterIdx (fun j a => decide (j ≠ i) && !a.qpeak && decide (a.part = part)
+      && decide (specDistance T C self.frac a.frac < dist)) atoms 0
 
 end Shelx.C15
